@@ -315,7 +315,7 @@ SEAT_TIER = {
                            (9, ["-emit", "next", "-frontier", "random", "-max-states", "300000"])],
                      random_runs=5000, steps=90, sim_num=300, conc_runs=3000),
 }
-SEAT_IGNORE = '{"C08.lateJoiner.seatVacatedSinceBlindsSet"}'     # known finding F8: reported from real traces, not from the model
+SEAT_IGNORE = '{"C08.lateJoiner.seatVacatedSinceBlindsSet", "C08.lateJoiner.seatBehindNewBigBlind"}'     # known finding F8: reported from real traces, not from the model
 
 
 def seat_sim_scripts(work, num, seed, outpath):
